@@ -132,6 +132,9 @@ func (g *gen) value(depth int) *V {
 		}
 		return h
 	case 14:
+		if g.r.Bool() {
+			return g.ptrTaggableHeld()
+		}
 		return g.unexp()
 	default:
 		return &V{K: "ptr", Elem: g.mapv(depth)}
@@ -422,6 +425,39 @@ func (g *gen) hand(depth int) *V {
 	return v
 }
 
+// a Taggable with a pointer receiver (map or struct type), tags classifying some entries public, some with an operation
+func (g *gen) ptrTaggable() *V {
+	if g.r.Bool() {
+		t := g.tmap(0)
+		t.K = "ptmap"
+		return t
+	}
+	m := g.leafMap(true, 1+g.r.Intn(3))
+	v := &V{K: "hand", Hand: "PTStruct", Fields: []Field{{Name: "Sec", Tag: sp("secret"), V: &V{K: "str", C: g.can()}}, {Name: "Unt", V: &V{K: "str", C: g.can()}}, {Name: "M", V: m}}}
+	for i := 1 + g.r.Intn(3); i > 0; i-- {
+		v.Tags = append(v.Tags, g.ptag(fmt.Sprintf("/M/k%d", 1+g.r.Intn(4))))
+	}
+	return v
+}
+
+// ... held by value, behind a pointer, behind a pointer in an interface-typed field, as slice elements, as a map value
+func (g *gen) ptrTaggableHeld() *V {
+	t := g.ptrTaggable()
+	switch g.r.Intn(6) {
+	case 0:
+		return t
+	case 1, 2:
+		return &V{K: "ptr", Elem: t}
+	case 3:
+		return &V{K: "iface", Elem: &V{K: "ptr", Elem: t}}
+	case 4:
+		p := &V{K: "ptr", Elem: t}
+		return &V{K: "slice", Elem: p, Elems: []*V{p, g.cloneFresh(p)}}
+	default:
+		return &V{K: "map", Iface: true, Keys: []string{"k1", "k2"}, Vals: []*V{{K: "ptr", Elem: t}, {K: "str", C: g.can()}}}
+	}
+}
+
 func (g *gen) unexp() *V {
 	return &V{K: "hand", Hand: "UnexpA", Fields: []Field{
 		{Name: "hidden", V: &V{K: "int", I: int64(g.r.Intn(3))}}, // 0 now and then: nothing to lose
@@ -456,7 +492,7 @@ func (g *gen) cloneFresh(v *V) *V {
 		for _, e := range v.Elems {
 			c.Elems = append(c.Elems, g.cloneFresh(e))
 		}
-	case "map", "tmap":
+	case "map", "tmap", "ptmap":
 		c.Vals = nil
 		for _, e := range v.Vals {
 			c.Vals = append(c.Vals, g.cloneFresh(e))
@@ -514,6 +550,12 @@ func (g *gen) payload(depth int) (string, *V) {
 		default:
 			return "rotate", &V{K: []string{"all", "salt", "info", "wrapper", "empty"}[g.r.Intn(5)]}
 		}
+	case 23:
+		t := g.ptrTaggable()
+		if g.r.Chance(3, 4) {
+			return "val", &V{K: "ptr", Elem: t}
+		}
+		return "val", t
 	case 22:
 		// a struct handed over BY VALUE (outside G for the no-leak theorem: its own strings cannot be set; what it refers
 		// to is still filtered, in the private copy only)
